@@ -1,5 +1,700 @@
-//! C14 — not implemented yet.
+//! C14 — conversions between vector types match the primitive conversions lane by lane.
+//!
+//! The list of conversions is generated from the working tree by /verif/lib/gen_conv.py into
+//! engine/gen/c14_table.rs (one call site per `as_*` method / From / TryFrom impl / re-packaging
+//! method) and instantiated once per glam variant by `suite.rs`. Everything in this file is shared by
+//! the variants and does not depend on glam: lane types, the per-kind oracles, lattices, strategies.
+#![cfg_attr(feature = "core", feature(portable_simd))]
+#![allow(clippy::all)]
+use proptest::prelude::*;
+use proptest::strategy::BoxedStrategy;
+use vcore::*;
+
+// ------------------------------------------------------------------------------------------------
+// lanes
+
+pub trait Lane: Copy + PartialEq + std::fmt::Debug + Send + Sync + 'static {
+    const NAME: &'static str;
+    const FLOAT: bool;
+    const BITS: u32;
+    /// integer range (0,0 for floats)
+    const MIN_I: i128;
+    const MAX_I: i128;
+    fn dec(w: u64) -> Self;
+    fn enc(self) -> u64;
+    fn as_f64(self) -> f64;
+    fn as_i128(self) -> i128;
+    fn nan(self) -> bool;
+    fn inf(self) -> bool;
+}
+
+macro_rules! int_lane {
+    ($($t:ident),*) => {$(
+        impl Lane for $t {
+            const NAME: &'static str = stringify!($t);
+            const FLOAT: bool = false;
+            const BITS: u32 = <$t>::BITS;
+            const MIN_I: i128 = <$t>::MIN as i128;
+            const MAX_I: i128 = <$t>::MAX as i128;
+            #[inline(always)] fn dec(w: u64) -> Self { w as $t }
+            #[inline(always)] fn enc(self) -> u64 { (self as u64) & (u64::MAX >> (64 - <$t>::BITS)) }
+            #[inline(always)] fn as_f64(self) -> f64 { self as f64 }
+            #[inline(always)] fn as_i128(self) -> i128 { self as i128 }
+            #[inline(always)] fn nan(self) -> bool { false }
+            #[inline(always)] fn inf(self) -> bool { false }
+        }
+    )*};
+}
+int_lane!(i8, u8, i16, u16, i32, u32, i64, u64, usize);
+
+impl Lane for f32 {
+    const NAME: &'static str = "f32";
+    const FLOAT: bool = true;
+    const BITS: u32 = 32;
+    const MIN_I: i128 = 0;
+    const MAX_I: i128 = 0;
+    #[inline(always)] fn dec(w: u64) -> Self { f32::from_bits(w as u32) }
+    #[inline(always)] fn enc(self) -> u64 { self.to_bits() as u64 }
+    #[inline(always)] fn as_f64(self) -> f64 { self as f64 }
+    #[inline(always)] fn as_i128(self) -> i128 { self as i128 }
+    #[inline(always)] fn nan(self) -> bool { self.is_nan() }
+    #[inline(always)] fn inf(self) -> bool { self.is_infinite() }
+}
+impl Lane for f64 {
+    const NAME: &'static str = "f64";
+    const FLOAT: bool = true;
+    const BITS: u32 = 64;
+    const MIN_I: i128 = 0;
+    const MAX_I: i128 = 0;
+    #[inline(always)] fn dec(w: u64) -> Self { f64::from_bits(w) }
+    #[inline(always)] fn enc(self) -> u64 { self.to_bits() }
+    #[inline(always)] fn as_f64(self) -> f64 { self }
+    #[inline(always)] fn as_i128(self) -> i128 { self as i128 }
+    #[inline(always)] fn nan(self) -> bool { self.is_nan() }
+    #[inline(always)] fn inf(self) -> bool { self.is_infinite() }
+}
+impl Lane for bool {
+    const NAME: &'static str = "bool";
+    const FLOAT: bool = false;
+    const BITS: u32 = 1;
+    const MIN_I: i128 = 0;
+    const MAX_I: i128 = 1;
+    #[inline(always)] fn dec(w: u64) -> Self { w & 1 != 0 }
+    #[inline(always)] fn enc(self) -> u64 { self as u64 }
+    #[inline(always)] fn as_f64(self) -> f64 { self as u8 as f64 }
+    #[inline(always)] fn as_i128(self) -> i128 { self as i128 }
+    #[inline(always)] fn nan(self) -> bool { false }
+    #[inline(always)] fn inf(self) -> bool { false }
+}
+
+/// The reference conversion: Rust's `as` between the primitive lane types.
+pub trait Cast<D> {
+    fn cast(self) -> D;
+}
+macro_rules! cast_to {
+    ($s:ident => $($d:ident),*) => {$( impl Cast<$d> for $s { #[inline(always)] fn cast(self) -> $d { self as $d } } )*};
+}
+macro_rules! cast_all {
+    ($($s:ident),*) => {$( cast_to!($s => f32, f64, i8, u8, i16, u16, i32, u32, i64, u64, usize); )*};
+}
+cast_all!(f32, f64, i8, u8, i16, u16, i32, u32, i64, u64, usize);
+macro_rules! bool_cast {
+    ($($d:ident),*) => {$( impl Cast<$d> for bool { #[inline(always)] fn cast(self) -> $d { (self as u8) as $d } } )*};
+}
+bool_cast!(f32, f64, i8, u8, i16, u16, i32, u32, i64, u64, usize);
+
+#[inline(always)]
+pub fn dec<S: Lane, const N: usize>(w: &[u64]) -> [S; N] {
+    let mut a = [S::dec(0); N];
+    for i in 0..N {
+        a[i] = S::dec(w[i]);
+    }
+    a
+}
+/// `f(a)` with the closure's parameter type fixed by `a` (lets the generated call sites write untyped closures).
+#[inline(always)]
+pub fn app<A, R>(a: A, f: impl FnOnce(A) -> R) -> R {
+    f(a)
+}
+#[cfg(target_arch = "x86_64")]
+#[inline(always)]
+pub fn m128_from(a: [f32; 4]) -> core::arch::x86_64::__m128 {
+    unsafe { core::mem::transmute(a) }
+}
+#[cfg(target_arch = "x86_64")]
+#[inline(always)]
+pub fn m128_to(m: core::arch::x86_64::__m128) -> [f32; 4] {
+    unsafe { core::mem::transmute(m) }
+}
+
+// ------------------------------------------------------------------------------------------------
+// table entries and what a case exercised (flags)
+
+pub struct Entry {
+    pub name: &'static str,
+    /// cast | from | tryfrom | repack | mask
+    pub kind: &'static str,
+    pub src: &'static str,
+    pub dst: &'static str,
+    pub ns: usize,
+    pub nd: usize,
+    /// source type as written in the impl (groups the f32 sweeps)
+    pub srcty: &'static str,
+    pub f: fn(&[u64]) -> Result<u32, Fail>,
+}
+
+pub const F_NAN: u32 = 1;
+pub const F_INF: u32 = 2;
+pub const F_SAT: u32 = 4;
+pub const F_TRUNC: u32 = 8;
+pub const F_WRAP: u32 = 16;
+pub const F_ROUND: u32 = 32;
+pub const F_BOUND: u32 = 64;
+pub const F_NEG: u32 = 128;
+pub const F_DISTINCT: u32 = 256;
+pub const F_TRY_OK: u32 = 512;
+pub const F_TRY_ONE: u32 = 1024;
+pub const F_TRY_MULTI: u32 = 2048;
+pub const F_MIXED: u32 = 4096;
+pub const F_SUBNORMAL: u32 = 8192;
+pub const F_NEGZERO: u32 = 16384;
+/// position of the single failing lane of a TryFrom case
+pub const F_POS_SHIFT: u32 = 16;
+pub const FLAG_NAMES: [&str; 15] = [
+    "nan", "inf", "saturates", "truncates-fraction", "wraps", "rounds", "range-boundary", "negative", "distinct-lanes", "try-ok",
+    "try-one-failing-lane", "try-several-failing-lanes", "mask-mixed", "subnormal", "negative-zero",
+];
+
+/// the property's non-trivial rule, per kind of conversion
+pub fn nontrivial(kind: &str, fl: u32) -> bool {
+    match kind {
+        "cast" => fl & (F_NAN | F_INF | F_SAT | F_TRUNC | F_WRAP | F_ROUND | F_BOUND) != 0,
+        "from" => fl & (F_NAN | F_INF | F_BOUND | F_NEG | F_SUBNORMAL | F_NEGZERO) != 0,
+        "tryfrom" => fl & (F_TRY_ONE | F_BOUND) != 0,
+        "repack" => fl & F_DISTINCT != 0,
+        "mask" => fl & F_MIXED != 0,
+        _ => false,
+    }
+}
+
+#[inline(always)]
+fn same<D: Lane>(a: D, b: D) -> bool {
+    a.enc() == b.enc() || (a.nan() && b.nan())
+}
+
+fn show<T: Lane, const N: usize>(a: &[T; N]) -> String {
+    let v: Vec<String> = a.iter().map(|x| format!("{:?} (0x{:x})", x, x.enc())).collect();
+    format!("[{}]", v.join(", "))
+}
+
+#[cold]
+fn lane_fail<S: Lane, D: Lane, const NS: usize, const ND: usize>(name: &str, var: &str, what: &str, i: usize, exp: D, l: &[S; NS], g: &[D; ND]) -> Fail {
+    Fail::new(
+        format!("C14/{}/{}", var, name),
+        name.to_string(),
+        format!("{what}: lane {i}: got {:?} (0x{:x}) expected {:?} (0x{:x}); source {} lanes={} result {} lanes={}", g[i], g[i].enc(), exp, exp.enc(), S::NAME, show(l), D::NAME, show(g)),
+    )
+}
+
+/// flags describing what `s as D` did (classification only; the comparison is done by the caller)
+#[inline(always)]
+fn cast_flags<S: Lane, D: Lane>(s: S, e: D) -> u32 {
+    let mut fl = 0;
+    if S::FLOAT {
+        let x = s.as_f64();
+        if x.is_nan() {
+            return F_NAN;
+        }
+        if x.is_infinite() {
+            fl |= F_INF;
+        }
+        if x < 0.0 {
+            fl |= F_NEG;
+        }
+        if !D::FLOAT {
+            let t = x.trunc();
+            let lo = D::MIN_I as f64; // 0 or -2^k: exact
+            let hi1 = (D::MAX_I + 1) as f64; // 2^k: exact
+            if t < lo || t >= hi1 {
+                fl |= F_SAT;
+            }
+            if t != x && x.is_finite() {
+                fl |= F_TRUNC;
+            }
+            if t == lo || t == hi1 || t == hi1 - 1.0 || t == lo - 1.0 {
+                fl |= F_BOUND;
+            }
+        } else {
+            if e.inf() && !s.inf() {
+                fl |= F_SAT;
+            }
+            if e.as_f64() != x {
+                fl |= F_ROUND;
+            }
+        }
+    } else {
+        let v = s.as_i128();
+        if v < 0 {
+            fl |= F_NEG;
+        }
+        if v == S::MIN_I || v == S::MAX_I {
+            fl |= F_BOUND;
+        }
+        if D::FLOAT {
+            if e.as_f64() as i128 != v {
+                fl |= F_ROUND;
+            }
+        } else {
+            if v < D::MIN_I || v > D::MAX_I {
+                fl |= F_WRAP;
+            }
+            if v == D::MIN_I || v == D::MAX_I || v == D::MAX_I + 1 || v == D::MIN_I - 1 {
+                fl |= F_BOUND;
+            }
+        }
+    }
+    fl
+}
+
+/// `as_*` casts: every lane equals `lane as D`.
+#[inline]
+pub fn k_cast<S: Lane + Cast<D>, D: Lane, const NS: usize, const ND: usize>(name: &str, var: &str, l: &[S; NS], g: &[D; ND]) -> Result<u32, Fail> {
+    let mut fl = 0;
+    for i in 0..ND {
+        let e: D = l[i].cast();
+        if !same(g[i], e) {
+            return Err(lane_fail(name, var, "cast differs from `as`", i, e, l, g));
+        }
+        fl |= cast_flags(l[i], e);
+    }
+    Ok(fl)
+}
+
+/// From between vector types of different lane type: the primitive conversion, and it must be lossless
+/// (converting the result back with `as` gives the identical source lane).
+#[inline]
+pub fn k_from<S: Lane + Cast<D>, D: Lane + Cast<S>, const NS: usize, const ND: usize>(name: &str, var: &str, l: &[S; NS], g: &[D; ND]) -> Result<u32, Fail> {
+    let mut fl = 0;
+    for i in 0..ND {
+        let s = l[i];
+        let e: D = s.cast();
+        if !same(g[i], e) {
+            return Err(lane_fail(name, var, "From differs from the primitive conversion", i, e, l, g));
+        }
+        let back: S = g[i].cast();
+        if !same(back, s) {
+            return Err(Fail::new(
+                format!("C14/{}/{}", var, name),
+                name.to_string(),
+                format!("From is not lossless: lane {i}: source {:?} (0x{:x}) became {:?} which converts back to {:?}; source lanes={}", s, s.enc(), g[i], back, show(l)),
+            ));
+        }
+        if S::FLOAT {
+            let x = s.as_f64();
+            if x.is_nan() {
+                fl |= F_NAN;
+            } else {
+                if x.is_infinite() {
+                    fl |= F_INF;
+                }
+                if x.is_sign_negative() {
+                    fl |= if x == 0.0 { F_NEGZERO } else { F_NEG };
+                }
+                if x != 0.0 && x.abs() < f32::MIN_POSITIVE as f64 {
+                    fl |= F_SUBNORMAL;
+                }
+                if x.abs() == f32::MAX as f64 {
+                    fl |= F_BOUND;
+                }
+            }
+        } else {
+            let v = s.as_i128();
+            if v < 0 {
+                fl |= F_NEG;
+            }
+            if v == S::MIN_I || v == S::MAX_I {
+                fl |= F_BOUND;
+            }
+        }
+    }
+    Ok(fl)
+}
+
+/// TryFrom between integer vector types: Ok with exactly the lane values iff every lane is inside the
+/// target range (decided in i128, which holds every lane type exactly), Err otherwise.
+#[inline]
+pub fn k_tryfrom<S: Lane + Cast<D>, D: Lane, const NS: usize, const ND: usize>(name: &str, var: &str, l: &[S; NS], g: &Option<[D; ND]>) -> Result<u32, Fail> {
+    let mut fl = 0;
+    let mut nfail = 0;
+    let mut pos = 0;
+    for i in 0..NS {
+        let v = l[i].as_i128();
+        if v < D::MIN_I || v > D::MAX_I {
+            nfail += 1;
+            pos = i as u32;
+        } else if v == D::MIN_I || v == D::MAX_I {
+            fl |= F_BOUND;
+        }
+        if v < 0 {
+            fl |= F_NEG;
+        }
+    }
+    let sig = || format!("C14/{}/{}", var, name);
+    match (nfail, g) {
+        (0, Some(g)) => {
+            for i in 0..ND {
+                if g[i].as_i128() != l[i].as_i128() {
+                    let e: D = l[i].cast();
+                    return Err(lane_fail(name, var, "TryFrom returned Ok with a different value", i, e, l, g));
+                }
+            }
+            fl |= F_TRY_OK;
+        }
+        (0, None) => {
+            return Err(Fail::new(sig(), name.to_string(), format!("TryFrom returned Err although every lane fits {}: source {} lanes={}", D::NAME, S::NAME, show(l))));
+        }
+        (_, Some(g)) => {
+            return Err(Fail::new(
+                sig(),
+                name.to_string(),
+                format!("TryFrom returned Ok({}) although {} lane(s) (last: lane {}) do not fit {}: source {} lanes={}", show(g), nfail, pos, D::NAME, S::NAME, show(l)),
+            ));
+        }
+        (1, None) => fl |= F_TRY_ONE | (pos << F_POS_SHIFT),
+        (_, None) => fl |= F_TRY_MULTI,
+    }
+    Ok(fl)
+}
+
+/// Re-packaging (arrays, tuples, (vector, scalar), extend/truncate, Vec3<->Vec3A, Quat<->Vec4, from_vec4,
+/// native registers): result lane i is source lane i, bit for bit.
+#[inline]
+pub fn k_repack<S: Lane, D: Lane, const NS: usize, const ND: usize>(name: &str, var: &str, l: &[S; NS], g: &[D; ND]) -> Result<u32, Fail> {
+    let n = if NS < ND { NS } else { ND };
+    let mut fl = 0;
+    for i in 0..n {
+        if g[i].enc() != l[i].enc() {
+            let e = D::dec(l[i].enc());
+            return Err(lane_fail(name, var, "lane not preserved bit-for-bit", i, e, l, g));
+        }
+        if l[i].nan() {
+            fl |= F_NAN;
+        }
+    }
+    let mut distinct = true;
+    for i in 0..NS {
+        for j in 0..i {
+            distinct &= l[i].enc() != l[j].enc();
+        }
+    }
+    if distinct {
+        fl |= F_DISTINCT;
+    }
+    Ok(fl)
+}
+
+/// From<BVecN>/From<BVecNA>: true is 1 and false is 0 in the target lane type.
+#[inline]
+pub fn k_mask<S: Lane + Cast<D>, D: Lane, const NS: usize, const ND: usize>(name: &str, var: &str, l: &[S; NS], g: &[D; ND]) -> Result<u32, Fail> {
+    let mut ones = 0;
+    for i in 0..ND {
+        let e: D = l[i].cast();
+        if g[i].enc() != e.enc() {
+            return Err(lane_fail(name, var, "mask lane is not 1 for true / 0 for false", i, e, l, g));
+        }
+        ones += l[i].enc();
+    }
+    Ok(if ones != 0 && ones != ND as u64 { F_MIXED } else { 0 })
+}
+
+// ------------------------------------------------------------------------------------------------
+// lattices and strategies (by name of the source lane type)
+
+pub fn int_info(name: &str) -> Option<(u32, bool)> {
+    Some(match name {
+        "i8" => (8, true),
+        "u8" => (8, false),
+        "i16" => (16, true),
+        "u16" => (16, false),
+        "i32" => (32, true),
+        "u32" => (32, false),
+        "i64" => (64, true),
+        "u64" | "usize" => (64, false),
+        _ => return None,
+    })
+}
+pub fn int_range(name: &str) -> (i128, i128) {
+    let (b, s) = int_info(name).expect("integer lane");
+    if s {
+        (-(1i128 << (b - 1)), (1i128 << (b - 1)) - 1)
+    } else {
+        (0, (1i128 << b) - 1)
+    }
+}
+#[inline]
+pub fn enc_int(v: i128, bits: u32) -> u64 {
+    (v as u64) & (u64::MAX >> (64 - bits))
+}
+
+/// value (+-)(2^k + delta) + frac quarter(s), as f64, then nudged by `ulp` units in the last place of the source float type
+fn int_boundary_float(bits32: bool, k: u32, delta: i32, neg: bool, quarters: u32, ulp: i32) -> u64 {
+    let mut x = (2.0f64).powi(k as i32) + delta as f64 + quarters as f64 * 0.25;
+    if neg {
+        x = -x;
+    }
+    if bits32 {
+        let b = (x as f32).to_bits() as i64 + ulp as i64;
+        (b as u32) as u64
+    } else {
+        (x.to_bits() as i64 + ulp as i64) as u64
+    }
+}
+
+/// Deterministic boundary list of a source lane type (every value for 8/16-bit types).
+pub fn boundary_list(src: &str) -> Vec<u64> {
+    let mut v: Vec<u64> = vec![];
+    match src {
+        "bool" => v.extend([0, 1]),
+        "f32" | "f64" => {
+            let b32 = src == "f32";
+            for k in 0..=64u32 {
+                for delta in -2..=2 {
+                    for neg in [false, true] {
+                        for q in [0, 2] {
+                            for ulp in -1..=1 {
+                                v.push(int_boundary_float(b32, k, delta, neg, q, ulp));
+                            }
+                        }
+                    }
+                }
+            }
+            if b32 {
+                v.extend(lattice::f32_specials().iter().map(|x| *x as u64));
+            } else {
+                v.extend(lattice::f64_specials());
+                // f64 values around f32 representability: neighbours and midpoints of adjacent f32 values
+                for b in [0u32, 1, 2, 0x007f_ffff, 0x0080_0000, 0x3f80_0000, 0x3f7f_ffff, 0x4b7f_ffff, 0x4b80_0000, 0x7f7f_fffe, 0x7f7f_ffff] {
+                    for s in [1.0f64, -1.0] {
+                        let lo = f32::from_bits(b) as f64;
+                        let hi = if b == 0x7f7f_ffff { 2.0f64.powi(128) } else { f32::from_bits(b + 1) as f64 };
+                        let mid = lo + (hi - lo) / 2.0;
+                        for x in [lo, mid, hi] {
+                            for u in -1i64..=1 {
+                                v.push(((s * x).to_bits() as i64 + u) as u64);
+                            }
+                        }
+                    }
+                }
+            }
+        }
+        _ => {
+            let (bits, _signed) = int_info(src).expect("lane type");
+            if bits <= 16 {
+                v.extend(0..(1u64 << bits));
+            } else {
+                for k in 0..bits {
+                    for delta in -2i128..=2 {
+                        for neg in [false, true] {
+                            let x = (1i128 << k) + delta;
+                            v.push(enc_int(if neg { -x } else { x }, bits));
+                        }
+                    }
+                }
+                // values that round (ties) when converted to f32 / f64
+                for k in [24u32, 25, 31, 53, 54, 62] {
+                    if k < bits {
+                        for m in [1i128, 2, 3, 5, 6, 7] {
+                            let sh = if k >= 53 { k - 53 } else { k - 24 };
+                            let x = (1i128 << k) + (m << sh) / 2;
+                            v.push(enc_int(x, bits));
+                            v.push(enc_int(-x, bits));
+                            v.push(enc_int(x + 1, bits));
+                            v.push(enc_int(x - 1, bits));
+                        }
+                    }
+                }
+                v.extend(0..=16u64);
+            }
+        }
+    }
+    v.sort_unstable();
+    v.dedup();
+    v
+}
+
+/// One source lane: the shared lattice of the type plus the integer-range boundaries every target type has.
+pub fn lane_strat(src: &str) -> BoxedStrategy<u64> {
+    match src {
+        "bool" => (0u64..2).boxed(),
+        "f32" => prop_oneof![
+            40 => lattice::lat_f32(),
+            45 => (0u32..=64, -2i32..=2, any::<bool>(), 0u32..4, -2i32..=2).prop_map(|(k, d, n, q, u)| int_boundary_float(true, k, d, n, q, u)),
+            15 => any::<u32>().prop_map(|b| b as u64),
+        ]
+        .boxed(),
+        "f64" => prop_oneof![
+            35 => lattice::lat_f64(),
+            35 => (0u32..=64, -2i32..=2, any::<bool>(), 0u32..4, -2i32..=2).prop_map(|(k, d, n, q, u)| int_boundary_float(false, k, d, n, q, u)),
+            // around the f32 grid: an f32 value, the midpoint to its successor, +-1 ulp of f64
+            20 => (any::<u32>(), 0u8..3, -1i64..=1).prop_map(|(b, w, u)| {
+                let b = if b & 0x7f80_0000 == 0x7f80_0000 { b & 0xff7f_ffff } else { b };
+                let lo = f32::from_bits(b) as f64;
+                let hi = f32::from_bits(b.wrapping_add(1)) as f64;
+                let x = match w { 0 => lo, 1 => if hi.is_finite() { lo + (hi - lo) / 2.0 } else { lo }, _ => hi };
+                if x.is_finite() { (x.to_bits() as i64 + u) as u64 } else { x.to_bits() }
+            }),
+            10 => any::<u64>(),
+        ]
+        .boxed(),
+        _ => {
+            let (bits, signed) = int_info(src).expect("lane type");
+            prop_oneof![
+                45 => lattice::lat_int(bits, signed),
+                35 => (0u32..bits, -3i128..=3, any::<bool>()).prop_map(move |(k, d, n)| { let x = (1i128 << k) + d; enc_int(if n { -x } else { x }, bits) }),
+                // a short significand somewhere in the word (+-1): inexact when converted to a float
+                20 => (any::<u32>(), 0u32..64, -1i128..=1, any::<bool>()).prop_map(move |(m, sh, d, n)| {
+                    let x = ((m as i128) << (sh % bits.max(1))) + d;
+                    enc_int(if n { -x } else { x }, bits)
+                }),
+            ]
+            .boxed()
+        }
+    }
+}
+
+/// TryFrom with exactly one lane outside the target range (position and side drawn), the others inside.
+pub fn one_fail_strat(src: &'static str, dst: &'static str, ns: usize) -> BoxedStrategy<Vec<u64>> {
+    let (sbits, _) = int_info(src).unwrap();
+    let (dbits, dsigned) = int_info(dst).unwrap();
+    let (slo, shi) = int_range(src);
+    let (dlo, dhi) = int_range(dst);
+    let (ilo, ihi) = (slo.max(dlo), shi.min(dhi));
+    let inside = lattice::lat_int(dbits, dsigned).prop_map(move |w| {
+        // sign-extend the target-type pattern, clamp into the intersection of the two ranges
+        let v: i128 = if dsigned { ((w << (64 - dbits)) as i64 >> (64 - dbits)) as i128 } else { w as i128 };
+        enc_int(v.clamp(ilo, ihi), sbits)
+    });
+    (proptest::collection::vec(inside, ns), 0..ns, any::<bool>(), 0u8..4, any::<u64>())
+        .prop_map(move |(mut lanes, pos, high, mode, r)| {
+            let can_hi = shi > dhi;
+            let can_lo = slo < dlo;
+            let bad: Option<i128> = if (high && can_hi) || !can_lo {
+                if !can_hi {
+                    None
+                } else {
+                    let span = (shi - dhi) as u128; // number of out-of-range values above
+                    Some(match mode {
+                        0 => dhi + 1,
+                        1 => (dhi + 2).min(shi),
+                        2 => shi,
+                        _ => dhi + 1 + ((r as u128 * span) >> 64) as i128,
+                    })
+                }
+            } else {
+                let span = (dlo - slo) as u128;
+                Some(match mode {
+                    0 => dlo - 1,
+                    1 => (dlo - 2).max(slo),
+                    2 => slo,
+                    _ => dlo - 1 - ((r as u128 * span) >> 64) as i128,
+                })
+            };
+            if let Some(b) = bad {
+                lanes[pos] = enc_int(b, sbits);
+            }
+            lanes
+        })
+        .boxed()
+}
+
+/// the out-of-range / in-range representatives used by the enumerated one-failing-lane pass
+pub fn try_points(src: &str, dst: &str) -> (Vec<u64>, Vec<u64>) {
+    let (sbits, _) = int_info(src).unwrap();
+    let (slo, shi) = int_range(src);
+    let (dlo, dhi) = int_range(dst);
+    let (ilo, ihi) = (slo.max(dlo), shi.min(dhi));
+    let mut bad = vec![];
+    if shi > dhi {
+        bad.extend([dhi + 1, (dhi + 2).min(shi), shi, shi - 1, dhi + (shi - dhi) / 2]);
+    }
+    if slo < dlo {
+        bad.extend([dlo - 1, (dlo - 2).max(slo), slo, slo + 1, dlo - (dlo - slo) / 2]);
+    }
+    let mut good = vec![ilo, ilo + 1, 0i128.clamp(ilo, ihi), 1i128.clamp(ilo, ihi), ihi - 1, ihi, (ilo + ihi) / 2];
+    good.dedup();
+    let e = |v: Vec<i128>| {
+        let mut o: Vec<u64> = v.into_iter().map(|x| enc_int(x, sbits)).collect();
+        o.sort_unstable();
+        o.dedup();
+        o
+    };
+    (e(bad), e(good))
+}
+
+/// Self-check of the reference: `as` from floats to every integer type is compared, over the boundary lists,
+/// with the documented semantics written out by hand (NaN -> 0, truncate toward zero, saturate).
+pub fn oracle_selfcheck() -> u64 {
+    let mut n = 0;
+    let xs: Vec<f64> = boundary_list("f64").into_iter().map(f64::from_bits).chain(boundary_list("f32").into_iter().map(|b| f32::from_bits(b as u32) as f64)).collect();
+    macro_rules! chk {
+        ($($d:ident),*) => {$(
+            for &x in &xs {
+                let (lo, hi) = (<$d>::MIN as i128, <$d>::MAX as i128);
+                let t = x.trunc();
+                let manual: i128 = if x.is_nan() { 0 } else if t <= lo as f64 { lo } else if t >= (hi + 1) as f64 { hi } else { t as i128 };
+                assert_eq!((x as $d) as i128, manual, "`{} as {}`", x, stringify!($d));
+                let y = x as f32;
+                if y as f64 == x {
+                    assert_eq!((y as $d) as i128, manual, "`{}f32 as {}`", y, stringify!($d));
+                }
+                n += 1;
+            }
+        )*};
+    }
+    chk!(i8, u8, i16, u16, i32, u32, i64, u64, usize);
+    n
+}
+
+// ------------------------------------------------------------------------------------------------
+// one instantiation of suite.rs (+ the generated table) per glam variant
+
+#[cfg(not(feature = "core"))]
+mod simd {
+    pub const VARIANT: &str = "simd";
+    use ::glam_simd as glam;
+    macro_rules! backend_items { (sse2 { $($t:tt)* }) => { $($t)* }; ($o:ident { $($t:tt)* }) => {}; }
+    macro_rules! backend_arr { (sse2 [ $($t:tt)* ]) => { &[ $($t)* ] }; ($o:ident [ $($t:tt)* ]) => { &[] }; }
+    include!("suite.rs");
+}
+#[cfg(not(feature = "core"))]
+mod scalar {
+    pub const VARIANT: &str = "scalar";
+    use ::glam_scalar as glam;
+    macro_rules! backend_items { (scalar { $($t:tt)* }) => { $($t)* }; ($o:ident { $($t:tt)* }) => {}; }
+    macro_rules! backend_arr { (scalar [ $($t:tt)* ]) => { &[ $($t)* ] }; ($o:ident [ $($t:tt)* ]) => { &[] }; }
+    include!("suite.rs");
+}
+#[cfg(feature = "core")]
+mod core_simd {
+    pub const VARIANT: &str = "core";
+    use ::glam_core as glam;
+    macro_rules! backend_items { (coresimd { $($t:tt)* }) => { $($t)* }; ($o:ident { $($t:tt)* }) => {}; }
+    macro_rules! backend_arr { (coresimd [ $($t:tt)* ]) => { &[ $($t)* ] }; ($o:ident [ $($t:tt)* ]) => { &[] }; }
+    include!("suite.rs");
+}
+
 fn main() {
-    eprintln!("c14: not implemented");
-    std::process::exit(2);
+    let args = Args::parse();
+    let mut subs = vec![];
+    #[cfg(not(feature = "core"))]
+    {
+        subs.extend(simd::subs(&args));
+        subs.extend(scalar::subs(&args));
+    }
+    #[cfg(feature = "core")]
+    {
+        subs.extend(core_simd::subs(&args));
+    }
+    let code = main_with("C14", "see MANIFEST / evidence rule", &args, subs);
+    std::process::exit(code);
 }
